@@ -112,7 +112,8 @@ def build(fmt, rng, natom, present, mag):
             kw["title"] = f"tagged {fmt} molecule {natom} {rng.randint(0, 999)}"
         if fmt == "pdb" and "title" in P and natom % 3 != 1:
             # TITLE / COMPND records continue over numbered lines (continuation counter in columns 9-10)
-            kw["title"] = "\n".join(f"TITLE LINE {k} OF {natom}" for k in range(1, (12 if natom % 3 == 0 else 3) + 1))
+            nline = 120 if natom % 7 == 2 else (12 if natom % 3 == 0 else 3)       # continuation counters of one, two and three digits
+            kw["title"] = "\n".join(f"TITLE LINE {k} OF {natom}" for k in range(1, nline + 1))
         if "bonds" in P and natom >= 2:
             types = {"sdf": [1, 2, 3, 4, 5, 6, 7, 8], "mol2": [1, 2, 3, 4, 9, 10, 8, 11], "pdb": [1, 2, 3]}.get(fmt, [1])
             kw["bonds"] = chain_bonds(natom, types, extra_long=True)
@@ -134,7 +135,7 @@ def build(fmt, rng, natom, present, mag):
         if "extra.chainids" in P:
             ex["chainids"] = np.array([["A", "B", "C"][i % 3] for i in range(natom)])
         if "extra.compound" in P:
-            ex["compound"] = "TAGGED COMPOUND" if natom % 2 else "\n".join(f"MOL_ID: {k};" for k in range(1, 15))
+            ex["compound"] = "TAGGED COMPOUND" if natom % 2 else "\n".join(f"MOL_ID: {k};" for k in range(1, 15 if natom % 4 else 131))
         if ff:
             kw["atffparams"] = ff
         if ex:
